@@ -241,7 +241,7 @@ func checkC05(c *Ctx) {
 								if isNilConst(sv) {
 									continue
 								}
-								if call, ok := sv.(*ssa.Call); !ok || call.Call.StaticCallee() != indexer {
+								if !isIndexerResult(sv, indexer, 0) {
 									bad = "the data stage returns " + describeValue(p, sv) + " instead of the indexer's result"
 								}
 							}
@@ -252,7 +252,7 @@ func checkC05(c *Ctx) {
 				if isNilConst(v) {
 					continue
 				}
-				if call, ok := v.(*ssa.Call); !ok || call.Call.StaticCallee() != indexer {
+				if !isIndexerResult(v, indexer, 0) {
 					bad = "the data stage returns " + describeValue(p, v) + " instead of the indexer's result"
 				}
 			}
@@ -587,4 +587,36 @@ func c05Rego(c *Ctx) {
 		}
 		r.Check(uses, "C05.N3", "helper:"+name, "", name+" wraps its input with nodes_array", "the helper "+name+" does not pass its input through nodes_array")
 	}
+}
+
+// isIndexerResult: v is the result of a call to the indexer, or of a call to a function of the indexer's package all of
+// whose returns yield (recursively) the indexer's result.
+func isIndexerResult(v ssa.Value, indexer *ssa.Function, depth int) bool {
+	if depth > 3 {
+		return false
+	}
+	v = stripIface(v)
+	call, ok := v.(*ssa.Call)
+	if !ok {
+		return false
+	}
+	callee := call.Call.StaticCallee()
+	if callee == indexer {
+		return true
+	}
+	if callee == nil || !IsModuleFunc(callee) || callee.Blocks == nil || RelPkg(callee) != RelPkg(indexer) {
+		return false
+	}
+	n := 0
+	for _, b := range callee.Blocks {
+		for _, ins := range b.Instrs {
+			if ret, ok := ins.(*ssa.Return); ok && len(ret.Results) >= 1 {
+				n++
+				if !isIndexerResult(ret.Results[0], indexer, depth+1) {
+					return false
+				}
+			}
+		}
+	}
+	return n > 0
 }
